@@ -94,6 +94,10 @@ def h_runout(ctx: Any, code: str, n: int, street: str, boards: int = 1, mode: st
                 op = C.call(ctx, st.select_runout_count, pref, who)
                 ctx.check(op.player_index == who and op.runout_count == pref, 'selection-record')
                 selected[who] = pref
+                if st.status and (list(st.runout_count_selector_indices) or st.showdown_index is not None):
+                    for done in selected:
+                        ctx.check(not st.can_select_runout_count(2, done) and not st.can_select_runout_count(None, done),
+                                  'player-can-select-twice', lambda: f'player {done}')
             else:
                 C.call(ctx, st.show_or_muck_hole_cards, True)
         # ---- after the hand
